@@ -36,7 +36,7 @@ CHECKS = {
  "C09": dict(tech="Kani on the REAL MMapMeta / subscribers over a fake mapping (publish, three subscription kinds, both consume()s) + Verus on the same functions extracted (symbolic log length) + partition lemma",
              text="Proof (sequential) that publish appends exactly one entry and never modifies an earlier one, that new-only / joined / separated subscriptions start at |log| / 0 / (0..t, t) with ONE split point, that a cursor yields a reference to entry #h itself and advances by one iff h is below its dynamic / frozen tail, hence old yields exactly [0,t) and new exactly [t,..). Subscriptions racing publishers that reserved but did not yet publish are NOT decided.",
              note="Kani cannot mmap: the struct is built over a heap block laid out like the mapping; the memmap crate and file system are assumed; fewer than 2^32-2 events", ref="DESIGN §4 C09"),
- "C10": dict(tech="Kani: StreamsManagerBase create / drop from arbitrary Inv_SM states (ids recycle, running count == |live|), Multi channels: a listener created for new events sees nothing sent before",
+ "C10": dict(tech="Verus: sync_vacant_and_used_streams / create_stream_id / report_stream_dropped for SYMBOLIC MAX_STREAMS (inductive loop invariants: the live list is exactly the ascending complement of the vacant ids) + Kani: StreamsManagerBase create / drop from arbitrary Inv_SM states (ids recycle, running count == |live|), Multi channels: a listener created for new events sees nothing sent before",
              text="Proof (all sequential histories by induction over Inv_SM) that at most MAX_STREAMS streams exist, the running-stream count equals the number of live streams, ids are never exhausted below the limit; obligation taken from the statement that a listener created for new events yields nothing sent before its creation (a KNOWN FINDING on the unchanged tree for the four covered Multi channels).",
              note="crossbeam Multi channel not covered", ref="DESIGN §4 C10"),
  "C11": dict(tech="Verus on the seven item_processor closures lifted mechanically out of stream_executor.rs (macros expanded textually, INSTRUMENTS symbolic) + the six task bodies (limit handed to for_each_concurrent, timeout arm chosen iff futures_timeout != 0); Kani: Instruments predicates over every usize",
@@ -60,7 +60,7 @@ CHECKS = {
  "C18": dict(tech="Verus on push/pop of both stacks for a SYMBOLIC capacity with the lock as a resource invariant (every access to head/buffer asserted under the lock) + Kani on the atomic stack and both non-blocking queues",
              text="Proof that each critical section implements the LIFO operation on whatever well-formed state it finds when it acquires the lock, touches head/buffer only while holding it, restores the invariant and releases on every exit: with 'the lock excludes' (ASSUMED) every execution is the sequential history ordered by lock acquisition, i.e. linearizable. The two non-blocking queues: sequential FIFO contract (inductive step).",
              note="LK3 (mutual exclusion of the swap-based flag / parking_lot RawMutex) + SC assumed; the atomic non-blocking queue under concurrency is not decided; Kani cannot compile parking_lot (ICE) -> that stack is V only", ref="DESIGN §3.4, §4 C18"),
- "C19": dict(tech="Kani loop-free harnesses over every 64-bit word / every (u32, f32-bits) pair: split/join inverse, probe reads one word, inc counts exactly one from any count",
+ "C19": dict(tech="Kani function contracts IN PLACE on split_joined / join_split (cfg_attr(kani, kani::ensures), proof_for_contract) reused modularly (stub_verified) for atomic_compute / probe + loop-free harnesses over every 64-bit word / every (u32, f32-bits) pair: split/join inverse, probe reads one word, inc counts exactly one from any count + Verus A-model on atomic_compute (left only through one successful compare-exchange on the value it computed from)",
              text="Proof that split/join are mutually inverse on all 2^64 words (so a reading returns the count and the average of the same update), that one inc from ANY count moves it by exactly one (101 at the documented reset) through one compare-exchange on the current word, and (bounded stand-in on small quarter-integer inputs) that the stored average is the incremental-mean step. 'Average equals the arithmetic mean within tolerance' over long sequences (floating-point error accumulation) and lost-update freedom under real concurrency (CAS retry loop) are NOT decided.",
              note="CBMC float model; concurrency residue", ref="DESIGN §4 C19"),
  "C20": dict(tech="Kani: send_with_async of every Uni / Multi channel polled once with a never-ready setter: state assertion at the suspension point + other operations complete without spinning (unwinding assertion)",
